@@ -101,6 +101,9 @@ func (ex *Exec) intrinsic(g *G, f *Frame, fn *ssa.Function, args []Value, call *
 	if reflIntrinsics[n] {
 		return ex.reflIntrinsic(n, fn, args), false
 	}
+	if v, ok := ex.serialIntrinsic(n, fn, args); ok {
+		return v, false
+	}
 	switch n {
 	case "math.Abs":
 		return ex.fabs(args[0].(Flt)), false
@@ -243,7 +246,7 @@ func (ex *Exec) intrinsic(g *G, f *Frame, fn *ssa.Function, args []Value, call *
 	case "errors.Is":
 		a, b := args[0].(Iface), args[1].(Iface)
 		return ex.boolOf(ex.eqTerm(a, b)), false
-	case "(time.Time).String", "(time.Time).Format":
+	case "(time.Time).String":
 		return Str{C: "<time>"}, false
 	case "fmt.Sprintf":
 		return Str{C: ex.sprintf(args)}, false
